@@ -12,7 +12,7 @@ a round for `k < N`; exit conclusions for a trip count `n ≤ N`.
 * `loopMotion_all_sound_h` / `finishLoop_motion_sound_h`: the full statement for a trip count `n ≤ N`.
 Lemmas are in `Hpbf/Proofs/OptLoopH*.lean`.
 -/
-import Hpbf.Proofs.OptLoopHTop
+import Hpbf.Proofs.OptLoopExtra
 
 namespace Hpbf.C01Loop
 open Hpbf Opt OptSem Expr OptLoop
@@ -256,6 +256,56 @@ theorem finishLoop_motion_sound_h (hw : 0 < w) (s : Rebuild w) (ps : List (Rebui
   OptLoop.finishLoop_motion_sound_h hw s ps sub sub' cond L C B D A os os' m0 body N n hC hfold hreadsAsc
     hpendAsc hcanon hcmp hknown hbody hgb hNI hframe hnN htrip hamo hne
 
+/-! ### `_c` variants: `compare` sound on expressions in normal form only
+
+`compare` ends by comparing `Expr.constantPart`s, which says something about values only for expressions in normal
+form (`Canon`); these variants need its soundness for `Canon` expressions only, and the `known` written and the
+pending expressions of the body state in normal form.  (Full statements: `OptLoop.finishLoop_prefix_sound_c`,
+`OptLoop.finishLoop_motion_sound_c`, identical to the `_h` ones except for `hcmp`, `hcanon`, `hcanonW`; the prefix
+variant additionally returns the agreement in the middle of the rounds.) -/
+
+theorem constantsAmong_sound_c (s : Rebuild w) (ps : List (Rebuild w)) (sub : Rebuild w) (vars : List Int)
+    (C : List Int) (m0 : Mem w) (body : Nat → Mem w → Mem w) (N : Nat)
+    (hC : constantsAmong s ps sub vars = .ok C) (hnd : vars.Nodup)
+    (hcanon : ∀ v p, mGet sub.pending v = some p → Canon p)
+    (hcanonW : ∀ v e, mGet sub.written v = some (.known e) → Canon e)
+    (hcmp : ∀ v e, Canon e → compare s ps (Expr.var v) e = .ok true → ev e m0 = m0 v)
+    (hb : BodyFactsH sub body (run body sub.pending m0) N) :
+    (∀ k, k ≤ N → ∀ c ∈ C, run body sub.pending m0 k c = m0 c) ∧
+    (∀ k, k < N → ∀ c ∈ C, mid body sub.pending m0 k c = m0 c) :=
+  OptLoop.constantsAmong_sound_c s ps sub vars C m0 body N hC hnd hcanon hcanonW hcmp hb
+
+/-! ### `analyzeLoop` with the weaker `CondFacts'`; the targets of `B`, `D`, `A` -/
+
+theorem condFacts'_iff (s : Rebuild w) (ps : List (Rebuild w)) (sub : Rebuild w) (cond : Int) (isLoop : Bool)
+    (cv : Nat → BitVec w) :
+    CondFacts' s ps sub cond isLoop cv ↔
+      (∀ c, getConstant s ps cond = some c → cv 0 = c) ∧
+      (isNonZero s ps cond = true → cv 0 ≠ 0#w) ∧
+      (isLoop = false → cv 0 ≠ 0#w → cv 1 = 0#w) ∧
+      (∀ c, getConstant sub (s :: ps) (cond + sub.shift - s.shift) = some c →
+        ∀ k, Live cv k → cv (k + 1) = c) ∧
+      (∀ e, getConstant sub (s :: ps) (cond + sub.shift - s.shift) = none → sub.subShift = false →
+        getBoth sub (s :: ps) (cond + sub.shift - s.shift) = some e →
+        ∀ k, Live cv k → ∃ f : Mem w, f cond = cv k ∧ cv (k + 1) = ev e f) :=
+  ⟨fun h => ⟨h.init, h.nz, h.ifOnce, h.stored, h.both⟩,
+   fun h => ⟨h.1, h.2.1, h.2.2.1, h.2.2.2.1, h.2.2.2.2⟩⟩
+
+/-- `analyzeLoop_sound` needing the `getBoth` fact only where `analyzeLoop` consults `getBoth`. -/
+theorem analyzeLoop_sound' (hw : 0 < w) (s : Rebuild w) (ps : List (Rebuild w)) (sub : Rebuild w)
+    (cond : Int) (isLoop : Bool) (cv : Nat → BitVec w) (hf : CondFacts' s ps sub cond isLoop cv)
+    (hnr : sub.noReturn = false) :
+    LoopMeaning (analyzeLoop s ps sub cond isLoop) cv cond :=
+  OptLoop.analyzeLoop_sound' hw s ps sub cond isLoop cv hf hnr
+
+/-- The targets of the three assignments are sub-lists (in order) of the list of pending variables. -/
+theorem motionFold_keys (s : Rebuild w) (ps : List (Rebuild w)) (sub : Rebuild w) (R C : List Int)
+    (lin : List (Int × Expr w)) (pset : List Int) (L : OptLoop w) (pending : List Int)
+    (sub' : Rebuild w) (B D A : List (Int × Expr w)) (os os' : Orders)
+    (h : pending.foldlM (motionStepM s ps R C lin pset L) (sub, [], [], []) os = .ok ((sub', B, D, A), os')) :
+    (B.map (·.1)).Sublist pending ∧ (D.map (·.1)).Sublist pending ∧ (A.map (·.1)).Sublist pending :=
+  OptLoop.motionFold_keys s ps sub R C lin pset L pending sub' B D A os os' h
+
 /-! ### Example: the loop of the fold on a concrete state (w = 8) -/
 
 section Examples
@@ -288,3 +338,13 @@ end Hpbf.C01Loop
 #print axioms Hpbf.C01Loop.motionFold_spec_e
 #print axioms Hpbf.C01Loop.finishLoop_prefix_sound
 #print axioms Hpbf.C01Loop.finishLoop_motion_sound_h
+#print axioms Hpbf.C01Loop.constantsAmong_sound_c
+#print axioms Hpbf.OptLoop.finishLoop_ctx_c
+#print axioms Hpbf.OptLoop.finishLoop_prefix_sound_c
+#print axioms Hpbf.OptLoop.finishLoop_motion_sound_c
+#print axioms Hpbf.C01Loop.analyzeLoop_sound'
+#print axioms Hpbf.C01Loop.motionFold_keys
+#print axioms Hpbf.OptLoop.motionFold_keys_nodup
+#print axioms Hpbf.OptLoop.motionAllE_B_facts
+#print axioms Hpbf.OptLoop.motionAllE_D_facts
+#print axioms Hpbf.OptLoop.motionAllE_A_facts
